@@ -101,6 +101,30 @@ fn sized_independent_of_remaining(rep: &mut Report) {
                         break;
                     }
                 }
+                // a refused (oversize) write must leave the budget alone: afterwards the advertised maximum
+                // for a buffer no larger than what is left is still consumed by one write
+                let left = cl - pre;
+                if bad.is_none() && left > 0 {
+                    let big = vec![7u8; left as usize + 1];
+                    let mut out = vec![0u8; left as usize + 1];
+                    if f.write(&big, &mut out).is_ok() {
+                        return Err("oversize write accepted".into());
+                    }
+                    let n = left as usize;
+                    let m = f.calculate_max_input(n);
+                    match f.write(&big[..m], &mut out[..n]) {
+                        Ok((c, _)) if c == m && m == n => {}
+                        o => return Ok(Some((n, match o { Ok((c, _)) => c, Err(_) => usize::MAX }))),
+                    }
+                }
+                // n = 0: the advertised maximum 0 written into a 0-byte buffer
+                if bad.is_none() {
+                    let mut g = send_body_flow(Some(cl.max(1)));
+                    match g.write(&[], &mut []) {
+                        Ok((0, 0)) => {}
+                        o => return Err(format!("write(&[], &mut []) on a length-delimited body returned {:?}", o.map_err(|e| format!("{:?}", e)))),
+                    }
+                }
                 Ok::<_, String>(bad)
             });
             rep.evaluations += 1;
